@@ -699,6 +699,19 @@ def shrink(case, still_fails):
 
 
 # ------------------------------------------------------------------ driver
+TIE_TARGETS = ["props/C06_tie.vo"]
+
+
+def regen(chk):
+    """translator tie: regenerate gen/Gen_standardiser.v from the current standardiser.py"""
+    from py2coq import units
+    res = units.regen(common.REPO, os.path.join(common.COQDIR, "gen"), ["Gen_standardiser.v"])
+    chk.coverage["translator"] = res
+    bad = [v for v in res.values() if v != "ok"]
+    if bad:
+        raise RuntimeError(bad[0])
+
+
 def main(tier=None, seed=None, replay=None):
     """generic driver (verdict: values + outcomes), then an informational pass comparing int/float types"""
     mod = sys.modules[__name__]
